@@ -1,9 +1,12 @@
 #!/usr/bin/env python3
-"""Regenerates MANIFEST.json from props.json + claims.json (texts per property)."""
+"""Regenerates MANIFEST.json from props/Cxx.json + claims/Cxx.json (texts per property)."""
 import json, os
 here = os.path.dirname(os.path.abspath(__file__))
-props = json.load(open(os.path.join(here, "props.json")))
-claims = json.load(open(os.path.join(here, "claims.json")))
+import glob
+props = {os.path.basename(f)[:-5]: json.load(open(f)) for f in glob.glob(os.path.join(here, "props", "C*.json"))}
+claims = {"claimed": {os.path.basename(f)[:-5]: json.load(open(f)) for f in glob.glob(os.path.join(here, "claims", "C*.json"))},
+          "not_applicable": json.load(open(os.path.join(here, "claims", "not_applicable.json"))),
+          "hook_commits": json.load(open(os.path.join(here, "claims", "hooks.json")))}
 allp = [json.loads(l)["id"] for l in open(os.path.join(here, "properties.jsonl"))]
 checks = []
 for p in allp:
